@@ -36,18 +36,27 @@ type space struct {
 	// Discarded: before the block, the state-changing messages that would flip each "off" flag of the tuple (and parameter
 	// updates with other percentages) are executed by the real handlers on a branch that is thrown away
 	Discarded bool `json:"discarded_executions,omitempty"`
+	// Jailed: which of the voting validators were jailed in x/staking just before the block (nil = nobody)
+	Jailed [][3]bool `json:"jailed_in_staking,omitempty"`
+}
+
+func (s space) jailed() [][3]bool {
+	if len(s.Jailed) == 0 {
+		return [][3]bool{{}}
+	}
+	return s.Jailed
 }
 
 // dimension order: fastest first; the two dimensions that select the base state are the slowest so
 // that a worker's cache of base states is hit.
 func (s space) odometer() engine.Odometer {
 	return engine.Odometer{Sizes: []int{len(s.Pools), len(s.Pools2), len(s.OPct), len(s.TPct), len(s.Tax), len(s.Mint),
-		len(s.Powers), len(s.Prop), len(s.OAct), len(s.Groups)}}
+		len(s.Powers), len(s.Prop), len(s.jailed()), len(s.OAct), len(s.Groups)}}
 }
 
 func (s space) tuple(d []int) Tuple {
 	return Tuple{Pool: s.Pools[d[0]], Pool2: s.Pools2[d[1]], OPct: s.OPct[d[2]], TPct: s.TPct[d[3]], Tax: s.Tax[d[4]], Mint: s.Mint[d[5]],
-		Powers: s.Powers[d[6]], Prop: s.Prop[d[7]], OAct: s.OAct[d[8]], Group: s.Groups[d[9]], Discarded: s.Discarded}
+		Powers: s.Powers[d[6]], Prop: s.Prop[d[7]], Jailed: s.jailed()[d[8]], OAct: s.OAct[d[9]], Group: s.Groups[d[10]], Discarded: s.Discarded}
 }
 
 func inS[T comparable](xs []T, x T) bool {
@@ -69,7 +78,7 @@ func (s space) contains(t Tuple) bool {
 		}
 	}
 	return g && s.Discarded == t.Discarded && inS(s.Pools, t.Pool) && inS(s.Pools2, t.Pool2) && inS(s.OPct, t.OPct) && inS(s.TPct, t.TPct) && inS(s.Tax, t.Tax) &&
-		inS(s.Mint, t.Mint) && inS(s.Powers, t.Powers) && inS(s.Prop, t.Prop) && inS(s.OAct, t.OAct)
+		inS(s.Mint, t.Mint) && inS(s.Powers, t.Powers) && inS(s.Prop, t.Prop) && inS(s.OAct, t.OAct) && inS(s.jailed(), t.Jailed)
 }
 
 func powerVectors(alpha []int64) [][3]int64 {
@@ -115,6 +124,15 @@ func groupConfigs(ns ...int) []GroupCfg {
 }
 
 // refilled returns the configurations with the queue-history flag set.
+// jailedSets lists every non-empty subset of the three validators.
+func jailedSets() [][3]bool {
+	var out [][3]bool
+	for m := 1; m < 8; m++ {
+		out = append(out, [3]bool{m&1 != 0, m&2 != 0, m&4 != 0})
+	}
+	return out
+}
+
 func refilled(gs []GroupCfg) []GroupCfg {
 	var out []GroupCfg
 	for _, g := range gs {
@@ -145,6 +163,8 @@ func spaces(quick bool) []space {
 				Powers: [][3]int64{{1, 2, 10}}, Prop: []int{0, 2}, OAct: allFlags3(), Groups: groupConfigs(0, 1, 2), GroupN: "no group; 1,2 members x all flags"},
 			{Name: "tss-refilled-queues", Pools: []string{"3", "1000001"}, Pools2: []string{"", "5"}, OPct: []uint64{0, 33}, TPct: []uint64{1, 33, 100}, Tax: []string{"0.02"}, Mint: []bool{false},
 				Powers: [][3]int64{{1, 2, 10}}, Prop: []int{0}, OAct: [][3]bool{on3}, Groups: refilled(groupConfigs(1, 2, 3)), GroupN: "1,2,3 members x all (active,nonce) flags, queues refilled after a signing consumed the first nonces"},
+			{Name: "oracle-jailed-voters", Jailed: jailedSets(), Pools: []string{"3", "1000001"}, Pools2: []string{""}, OPct: []uint64{33, 100}, TPct: []uint64{50}, Tax: []string{"0.02"}, Mint: []bool{false},
+				Powers: powerVectors([]int64{1, 3, 10}), Prop: []int{0, 1, 2}, OAct: allFlags3(), Groups: []GroupCfg{bothOn}, GroupN: one},
 			{Name: "oracle", Pools: poolsQ, Pools2: []string{""}, OPct: pct6, TPct: []uint64{50}, Tax: tax4, Mint: []bool{false},
 				Powers: powerVectors([]int64{1, 3, 10}), Prop: []int{0, 1, 2}, OAct: allFlags3(), Groups: []GroupCfg{bothOn}, GroupN: one},
 			{Name: "oracle-multidenom-mint", Pools: []string{"3", "1000001"}, Pools2: []string{"5"}, OPct: []uint64{1, 33, 100}, TPct: []uint64{50}, Tax: []string{"0.02", "0.5"}, Mint: []bool{false, true},
@@ -161,6 +181,8 @@ func spaces(quick bool) []space {
 			Powers: [][3]int64{{1, 1, 1}, {1, 2, 10}}, Prop: []int{0, 1, 2}, OAct: allFlags3(), Groups: groupConfigs(0, 1, 2, 3), GroupN: "no group; 1,2,3 members x all flags"},
 		{Name: "tss-refilled-queues", Pools: []string{"3", "99", "1000001"}, Pools2: []string{"", "5"}, OPct: []uint64{0, 33, 100}, TPct: pct6, Tax: []string{"0", "0.02"}, Mint: []bool{false, true},
 			Powers: [][3]int64{{1, 2, 10}}, Prop: []int{0}, OAct: [][3]bool{on3}, Groups: refilled(groupConfigs(1, 2, 3)), GroupN: "1,2,3 members x all (active,nonce) flags, queues refilled after a signing consumed the first nonces"},
+		{Name: "oracle-jailed-voters", Jailed: jailedSets(), Pools: []string{"3", "99", "1000001", "1000000000000000007"}, Pools2: []string{"", "5"}, OPct: []uint64{1, 33, 100}, TPct: []uint64{50}, Tax: []string{"0", "0.02", "0.5"}, Mint: []bool{false, true},
+			Powers: powerVectors([]int64{1, 3, 10}), Prop: []int{0, 1, 2}, OAct: allFlags3(), Groups: []GroupCfg{bothOn}, GroupN: one},
 		{Name: "tss", Pools: poolsX, Pools2: []string{"", "1", "5", "1000003"}, OPct: []uint64{0, 1, 33, 99, 100}, TPct: pct6, Tax: tax5, Mint: []bool{false, true},
 			Powers: [][3]int64{{1, 2, 10}}, Prop: []int{0}, OAct: [][3]bool{on3}, Groups: groupConfigs(0, 1, 2, 3), GroupN: "no group; 1,2,3 members x all (active,nonce) flags"},
 		{Name: "cross", Pools: []string{"3", "99", "1000001", "1000000000000000007"}, Pools2: []string{"", "5"}, OPct: []uint64{0, 33, 50, 100}, TPct: []uint64{0, 33, 50, 100}, Tax: []string{"0", "0.02", "1"}, Mint: []bool{false, true},
@@ -191,12 +213,14 @@ func run(r *engine.Run) {
 		"quick: oracle{pool uband 0,1,2,3,99,10^6+1,10^18+7; powers {1,3,10}^3; all 2^3 oracle-active sets; 3 proposers; oracle pct 0,1,33,50,99,100; tax 0,0.02,0.5,1; mint off} + " +
 		"oracle-multidenom-mint{2 pools x second denom, mint off/on, same powers/flags/proposers} + " +
 		"tss{6 pools x optional second denom; no group and every (active,has-nonce) assignment for 1,2,3 members (85 shapes); tss pct 0,1,33,50,99,100; oracle pct 0,33; 4 taxes} + " +
-		"cross{2 pools x optional second denom x oracle pct 0,33,100 x tss pct 0,33,100 x mint off/on x all oracle-active sets x all shapes with <=2 members}. " +
+		"cross{2 pools x optional second denom x oracle pct 0,33,100 x tss pct 0,33,100 x mint off/on x all oracle-active sets x all shapes with <=2 members} + " +
+		"oracle-jailed-voters{every non-empty subset of the voting validators jailed in x/staking just before the block (no validator-set update yet) x powers {1,3,10}^3 x all oracle-active sets x 3 proposers} + " +
+		"discarded-executions and tss-refilled-queues (see coverage.configs). " +
 		"thorough: the same four products over larger alphabets (13 pool amounts up to 3*10^18, second denom 1,5,10^6+3, tax also 0.333333333333333333, powers {0,1,2,3,10}^3 and {1,333333333,10^12}^3, 3 proposers everywhere)"
 	r.Rule = "one evaluation = one tuple executed on the real whole-app BeginBlocker and on its module-by-module twin; tuples are enumerated by an odometer over each product, every index is executed; " +
 		"a tuple is non-trivial when the oracle share or the per-member tss payment is non-zero in some denom; distinct_nontrivial counts non-trivial tuples, a tuple lying in several products counted once"
 	r.Assumptions = []string{
-		"votes are given: every vote refers to a bonded validator, BlockIDFlagCommit, powers from the alphabet (not tied to staking power); the proposer is one of the three validators",
+		"votes are given: every vote refers to a validator known to staking (bonded, or in product oracle-jailed-voters jailed by StakingKeeper.Jail - the call x/slashing and x/evidence make - with the set update not yet in effect), BlockIDFlagCommit, powers from the alphabet (not tied to staking power); the proposer is one of the three validators",
 		"reward percentages within 0..100 and community tax within 0..1 as quantified (out-of-range parameters are C02's subject)",
 		"share amounts: 'configured percentage' is taken as floor(pool*pct/100) per denom (anchors: trunc); the community-tax part is required only up to rounding of less than one base unit; proportional parts only up to the 18-digit fixed-point truncation; the rest is exact",
 		"the SDK distribution module's own allocation (after the two shares) is judged only for conservation and for backing of its records, not for its split",
@@ -205,7 +229,7 @@ func run(r *engine.Run) {
 	}
 	r.Required = []string{
 		"oracle:allocated", "oracle:none-active", "oracle:share-is-zero", "oracle:rounding-remainder-to-proposer", "oracle:inactive-validator-gets-0",
-		"oracle:inactive-proposer-gets-only-dust",
+		"oracle:inactive-proposer-gets-only-dust", "oracle:jailed-active-voter-paid",
 		"tss:members-paid", "tss:no-current-group", "tss:no-valid-member", "tss:excluded-member-gets-0", "tss:rounding-remainder-to-community-pool",
 		"tss:member-share-is-zero", "pool:multi-denom", "mint:on", "mint:off", "begin-block-order:mint<oracle<bandtss<distribution",
 	}
@@ -243,7 +267,7 @@ func run(r *engine.Run) {
 			if tally.Violations() >= 8 {
 				return // enough counterexamples; the run fails anyway
 			}
-			var buf [10]int
+			var buf [11]int
 			t := sp.tuple(od.Digits(idx, buf[:0]))
 			for _, earlier := range sps[:si] {
 				if earlier.contains(t) {
